@@ -227,7 +227,22 @@ fn confusable_ids(r: &mut Rng) -> (Vec<Identifier>, Vec<Identifier>) {
     let mut y = x.clone();
     // the difference sits anywhere, often at the very end of a long list
     let k = if r.chance(1, 3) { n - 1 } else { r.below(n as u64) as usize };
-    match r.below(5) {
+    match r.below(6) {
+        5 => {
+            // text identifiers with a long common prefix (comparison on a fixed-size prefix, a hash or a length goes
+            // wrong here): the difference is one byte after 3..33 common bytes, or one is a proper prefix of the other
+            let l = *r.pick(&[3usize, 4, 7, 8, 9, 15, 16, 17, 31, 32, 33]);
+            // starts with a letter, so the identifier is textual whatever follows
+            let stem: String = std::iter::once('s').chain((1..l).map(|_| *r.pick(&['s', 'n', 'a', 'p', 'A', 'z', '-', '0', '9']))).collect();
+            let (ta, tb) = match r.below(4) {
+                0 => ("1".to_string(), "2".to_string()),
+                1 => ("a".to_string(), "b".to_string()),
+                2 => (String::new(), "0".to_string()),
+                _ => ("a".to_string(), "A".to_string()),
+            };
+            x[k] = Identifier::AlphaNumeric(format!("{}{}", stem, ta));
+            y[k] = Identifier::AlphaNumeric(format!("{}{}", stem, tb));
+        }
         4 => {
             // adjacent large numerics: equal as f64, different as integers
             let big = *r.pick(&[u64::MAX, u64::MAX - 1, 9007199254740993, 9007199254740992, 10000000000000000001, 1u64 << 63, (1u64 << 63) + 1]);
@@ -778,9 +793,10 @@ fn partial_ast(r: &mut Rng, pool: &[u64], tag_pool: &[Vec<String>]) -> (PartialA
         if r.chance(1, 8) {
             bld = (0..1 + r.below(2)).map(|_| raw_ident(r)).collect();
         }
-    } else if ncomp == 3 && wild && comps[2]["t"] == "x" && r.chance(1, 12) {
-        // `1.2.x-tag`: grammatical (xr qualifier), the tag is irrelevant
-        pre = vec![r.pick(ALNUM).to_string()];
+    } else if ncomp == 3 && wild && (r.chance(1, 8) || (nums[2].is_some() && r.chance(1, 2))) {
+        // `1.2.x-tag`, `1.x.3-tag`, `x.2.3-tag`: grammatical (the qualifier follows the third component whatever it
+        // is); with a wildcard anywhere the tag is irrelevant
+        pre = if r.chance(1, 2) && !tag_pool.is_empty() { r.pick(tag_pool).clone() } else { vec![r.pick(ALNUM).to_string()] };
     }
     let pa = PartialAst { v: r.chance(1, 8), comps, nums, pre, bld, nohy };
     let text = pa.render(&texts);
@@ -959,8 +975,10 @@ fn rconcat<W: Write>(r: &mut Rng, n: usize, out: &mut W) -> usize {
             let (_, tb, _) = alt_ast(r, &pool, &tag_pool, false, &mut parts);
             (ta, tb)
         } else {
+            // now and then both sides are long (1-60 kB, every order of magnitude): `a || b` must still parse when a and b do
+            let long = if r.chance(1, 40) { *r.pick(&[40u64, 80, 150, 300, 600, 1200]) } else { 0 };
             let mut mk = |r: &mut Rng, parts: &mut Vec<PartialAst>| {
-                let n = 1 + r.below(2);
+                let n = if long > 0 { long + r.below(long / 2) } else { 1 + r.below(2) };
                 let mut t = String::new();
                 for i in 0..n {
                     if i > 0 {
@@ -1153,6 +1171,13 @@ fn timing<W: Write>(_r: &mut Rng, n: usize, out: &mut W) -> usize {
         writeln!(out, "{}", json!({"op":"timing","parser":"version","unit":bytes(u),"n":n as u64})).unwrap();
         cnt += 1;
     }
+    // every operation between a range with tens of thousands of alternatives and a small one, both ways
+    // (depth- or size-dependent failures of the set operations: recursion over the alternatives, caps, quadratic sweeps)
+    for (u, pieces) in [("2.0.{i}", 120_000u64), (">=1.{i}.0 <1.{i}.5", 40_000), ("{i}.x", 60_000), ("1.0.0-{i}", 120_000), ("<0.0.{i}", 30_000)] {
+        let small: Vec<Value> = ["1.0.0", ">=0.0.0", "<3.0.0 || >7.0.0", "2.0.7", "1.0.0-5 || 1.5.2"].iter().map(|t| bytes(t)).collect();
+        writeln!(out, "{}", json!({"op":"deepops","unit":bytes(u),"pieces":pieces,"small":small})).unwrap();
+        cnt += 1;
+    }
     cnt
 }
 
@@ -1189,7 +1214,32 @@ fn rgarbage<W: Write>(r: &mut Rng, n: usize, out: &mut W) -> usize {
             }
             alts.push(json!({"cs":cs,"seps":seps}));
         }
-        writeln!(out, "{}", json!({"op":"rparse","dst":1,"text":bytes(&text),"ast":{"alts":alts,"ors":ors},"vs":[]})).unwrap();
+        match r.below(30) {
+            // surrounded by blanks (no syntax tree: only the text-level clauses apply to the recorded error)
+            0..=4 => {
+                let l = *r.pick(&["", " ", "  ", "\t", " \t "]);
+                let t = *r.pick(&["", " ", "  ", "\t", "\n"]);
+                let text = format!("{}{}{}", l, text, if l.is_empty() && t.is_empty() { " " } else { t });
+                writeln!(out, "{}", json!({"op":"rparse","dst":1,"text":bytes(&text),"vs":[]})).unwrap();
+            }
+            // thousands of bytes of garbage (a truncated or re-allocated copy of the input shows up in the error)
+            5 => {
+                let g: &str = *r.pick(G);
+                let sep = *r.pick(&[" ", "  ", " || ", "||"]);
+                let reps = *r.pick(&[600usize, 1100, 1500, 4200]);
+                let mut long = String::new();
+                for i in 0..reps {
+                    if i > 0 {
+                        long.push_str(sep);
+                    }
+                    long.push_str(g);
+                }
+                writeln!(out, "{}", json!({"op":"rparse","dst":1,"text":bytes(&long),"vs":[]})).unwrap();
+            }
+            _ => {
+                writeln!(out, "{}", json!({"op":"rparse","dst":1,"text":bytes(&text),"ast":{"alts":alts,"ors":ors},"vs":[]})).unwrap();
+            }
+        }
     }
     n
 }
@@ -1266,7 +1316,14 @@ fn corpus<W: Write>(r: &mut Rng, n: usize, out: &mut W) -> usize {
 
 fn rtext<W: Write>(r: &mut Rng, n: usize, out: &mut W) -> usize {
     for _ in 0..n {
-        let max_alts = if r.chance(1, 12) { 7 } else { 3 };
+        // now and then many alternatives (size-dependent fast paths: sorting, bisection, caps)
+        let max_alts = match r.below(60) {
+            0 => 40,
+            1 => 20,
+            2 => 12,
+            3..=7 => 7,
+            _ => 3,
+        };
         let (ast, text, vs) = range_ast(r, max_alts, true);
         writeln!(out, "{}", json!({"op":"rparse","dst":1,"text":bytes(&text),"ast":ast,
             "vs":vs.iter().map(ver_to_json).collect::<Vec<_>>()})).unwrap();
@@ -1299,6 +1356,80 @@ fn bigranges<W: Write>(r: &mut Rng, n: usize, out: &mut W) -> usize {
     n
 }
 
+/// operands with 33-100 alternatives (beyond every size-dependent threshold a fast path is likely to use: 32, 64,
+/// |A|x|B| > 1024): disjoint per-major blocks in ascending / descending / shuffled order, or nested one-sided
+/// intervals that all overlap (so that the result itself has more than a thousand alternatives)
+fn hugeranges<W: Write>(r: &mut Rng, n: usize, out: &mut W) -> usize {
+    let mk = |m: u64, n: u64, p: u64, pre: Vec<Identifier>| Version { major: m, minor: n, patch: p, pre_release: pre, build: vec![] };
+    let n0 = || vec![Identifier::Numeric(0)];
+    for case_no in 0..n as u64 {
+        let base = r.below(3);
+        let blocks = |r: &mut Rng, k: u64, off: u64| -> Vec<(VerifSide, VerifSide)> {
+            let mut ivs: Vec<(VerifSide, VerifSide)> = (0..k)
+                .map(|i| {
+                    let m = base + off + i;
+                    match r.below(6) {
+                        0 => (Some((true, mk(m, 0, 0, vec![]))), Some((true, mk(m, 0, 0, vec![])))),
+                        1 => (Some((true, mk(m, 1, 0, vec![]))), Some((true, mk(m, 5, 0, vec![])))),
+                        2 => (Some((true, mk(m, 0, 0, vec![Identifier::AlphaNumeric("a".into())]))), Some((false, mk(m, 0, 0, vec![])))),
+                        _ => (Some((true, mk(m, 0, 0, vec![]))), Some((false, mk(m + 1, 0, 0, n0())))),
+                    }
+                })
+                .collect();
+            // ascending / descending / shuffled, in turn
+            match (case_no / 8 + off) % 3 {
+                0 => {}
+                1 => ivs.reverse(),
+                _ => {
+                    for i in (1..ivs.len()).rev() {
+                        let j = r.below(i as u64 + 1) as usize;
+                        ivs.swap(i, j);
+                    }
+                }
+            }
+            ivs
+        };
+        let nested_lower = |r: &mut Rng, k: u64| -> Vec<(VerifSide, VerifSide)> {
+            (0..k).map(|i| (Some((r.chance(1, 2), mk(base + i, 0, 0, vec![]))), None)).collect()
+        };
+        let nested_upper = |r: &mut Rng, k: u64| -> Vec<(VerifSide, VerifSide)> {
+            (0..k).map(|i| (None, Some((r.chance(1, 2), mk(base + 20 + i, 0, 0, vec![]))))).collect()
+        };
+        // every shape in every run: shapes in turn, sizes in turn
+        let k = [33u64, 70, 40, 100, 48, 64][((case_no / 8 + case_no) % 6) as usize];
+        let (a, b) = match case_no % 8 {
+            // huge against one or two intervals somewhere inside
+            0..=2 => {
+                let a = blocks(r, k, 0);
+                let m = base + r.below(k);
+                let mut b = vec![(Some((true, mk(m, 2, 0, vec![]))), Some((r.chance(1, 2), mk(m + r.below(3), 3, 0, vec![]))))];
+                if r.chance(1, 2) {
+                    let m2 = base + r.below(k);
+                    b.push((Some((true, mk(m2, 0, 0, vec![]))), Some((true, mk(m2, 0, 0, vec![])))));
+                }
+                if r.chance(1, 2) { (a, b) } else { (b, a) }
+            }
+            // huge against itself / against a shifted copy
+            3 => {
+                let a = blocks(r, k.min(48), 0);
+                (a.clone(), a)
+            }
+            4 | 5 => {
+                let (k2, off) = (*r.pick(&[33u64, 40]), r.below(5));
+                (blocks(r, k.min(48), 0), blocks(r, k2, off))
+            }
+            // every pair overlaps: the result has |A| x |B| alternatives
+            6 => {
+                let (k1, k2) = (*r.pick(&[33u64, 40]), *r.pick(&[33u64, 40]));
+                (nested_lower(r, k1), nested_upper(r, k2))
+            }
+            _ => (nested_lower(r, k.min(48)), blocks(r, 33, 10)),
+        };
+        writeln!(out, "{}", json!({"op":"pair","A":bounds_to_json(&a),"B":bounds_to_json(&b)})).unwrap();
+    }
+    n
+}
+
 pub fn generate<W: Write>(scenario: &str, seed: u64, n: usize, out: &mut W) -> usize {
     let mut h: u64 = 1469598103934665603;
     for b in scenario.bytes() {
@@ -1308,6 +1439,7 @@ pub fn generate<W: Write>(scenario: &str, seed: u64, n: usize, out: &mut W) -> u
     match scenario {
         "ranges" => ranges(&mut r, n, out),
         "bigranges" => bigranges(&mut r, n, out),
+        "hugeranges" => hugeranges(&mut r, n, out),
         "vorder" => vorder(&mut r, n, out),
         "vdiffs" => vdiffs(&mut r, n, out),
         "vtext" => vtext(&mut r, n, out),
